@@ -431,3 +431,17 @@ for pid in ("C14", "C09", "C07"):
 PROPS["C14"]["functions"] += ["HashColumn::{write_plan, write_plan_existing, write_plan_new, trigger_reindex} (value-table and page operations by contract)"]
 PROPS["C09"]["functions"] += ["HashColumn::{write_plan, write_plan_new, trigger_reindex} (growth on a full page)"]
 PROPS["C07"]["functions"] += ["HashColumn::{write_plan, write_plan_existing} (reference / dereference glue)"]
+# ---- C04.I / C04.D: Node::change (Set / Dereference) and remove_last on a two-level tree held by the harness
+TREEC = NODEC + ["stub: Node::create_separator -> separator with the key and a fresh value address (existing address kept on overwrite)",
+                 "stub: Column::write_existing_value_plan (Dereference of a btree value) -> value released, call recorded"]
+_c04_tree = (("c04_d_remove_root_separator_minimal", "quick", "C04.D"), ("c04_d_remove_root_separator_spare", "thorough", "C04.D"), ("c04_d_remove_last_minimal_leaves", "quick", "C04.D"),
+             ("c04_d_remove_last_borrow", "thorough", "C04.D"), ("c04_d_remove_from_minimal_middle_leaf", "thorough", "C04.D"), ("c04_d_remove_from_minimal_first_leaf", "thorough", "C04.D"),
+             ("c04_d_remove_from_minimal_last_leaf", "thorough", "C04.D"), ("c04_d_remove_from_leaf_with_spare", "thorough", "C04.D"),
+             ("c04_i_insert_into_full_middle_leaf", "thorough", "C04.I"), ("c04_i_insert_into_full_first_leaf", "thorough", "C04.I"), ("c04_i_insert_into_full_last_leaf", "thorough", "C04.I"),
+             ("c04_i_insert_into_leaf_with_room", "thorough", "C04.I"), ("c04_i_overwrite_root_separator", "quick", "C04.I"))
+for fn, tier, lab in _c04_tree:
+    heavy = "leaf" in fn and "last_minimal" not in fn
+    add("C04", H("btree::node", fn, tier, [lab], "all leaf keys (one byte each, strictly increasing in order); root separators 100 / 200 and the operated key concrete (the descent is concrete, the slot inside the leaf symbolic)",
+                 "root with 2 separators and 3 leaves of 4..8 separators; one Node::change / remove_last call; unwind 32", 3600 if heavy else 900, 22 if heavy else 4, unwind=32, stubs=ENV + TREEC, replay="solver-trace-only"))
+PROPS["C04"]["functions"] += ["btree::node::Node::{change, insert, insert_node, on_existing, remove_last, need_rebalance, split} on a two-level tree (children, node writes and value writes by contract)"]
+PROPS["C04"]["bounds"] += "; two-level trees: root with 2 separators over 3 leaves (4..8 separators each), one insertion / removal / remove_last, rebalance cases borrow-left / borrow-right / merge for leaf and inner children"
